@@ -24,9 +24,12 @@ Medias == {JSON, TEXT, OCTET, URLENCODED, MULTIPART}
 Names == { <<102, 46, 116>>,                 \* "f.t"
            <<100, 47, 102, 46, 116>>,        \* "d/f.t"
            <<47, 120, 47>>,                  \* "/x/"
-           <<97, 34, 98, 92, 99>> }          \* a"b\c
+           <<97, 34, 98, 92, 99>>,           \* a"b\c
+           <<97, 92, 40, 98>>,               \* a\(b   backslash before a tspecial, no quote
+           <<97, 92, 92, 98>>,               \* a\\b   double backslash
+           <<97, 92>> }                      \* a\     trailing backslash
 Declared == { "", "text/csv" }
-Keys == { <<97>>, <<98>> }
+Keys == { <<97>>, <<98, 92, 92>>, <<99, 92>> }     \* "a", "b\\", "c\" (field names travel in a quoted-string too)
 Vals == { <<120>>, <<121, 32, 38>> }
 
 Item(n, d, l, h, z, c) == [name |-> n, declared |-> d, len |-> l, head |-> h, nul |-> z, chunk |-> c]
@@ -38,7 +41,7 @@ SniffItems == { it \in { Item(<<102>>, d, l, h, z, c) : d \in Declared, l \in Le
                                                         z \in {0, 1, 512, 513}, c \in Chunks } : WellFormedItem(it) }
 PlainItems == { Item(n, d, 1500, "text", 0, 0) : n \in Names, d \in Declared }
 
-In0 == [media |-> MULTIPART, payload |-> "none", fields |-> <<>>, files |-> <<>>, auth |-> FALSE, k |-> 0]
+In0 == [media |-> MULTIPART, method |-> "POST", presetct |-> "", payload |-> "none", fields |-> <<>>, files |-> <<>>, auth |-> FALSE, k |-> 0]
 Init == track = "start" /\ in = In0
 
 Ids == [payload |-> "P", files |-> [i \in 1..Len(in.files) |-> [j \in 1..Len(in.files[i].items) |-> <<i, j>>]]]
@@ -70,8 +73,9 @@ AddValue ==
 
 PayloadTrack ==
   /\ track = "start"
-  /\ \E p \in {"none", "value", "reader", "readcloser"}, m \in {JSON, TEXT, OCTET}, a \in BOOLEAN, k \in 0..MaxK :
-        in' = [in EXCEPT !.payload = p, !.media = m, !.auth = a, !.k = k]
+  /\ \E p \in {"none", "value", "reader", "readcloser"}, m \in {JSON, TEXT, OCTET}, a \in BOOLEAN, k \in 0..MaxK,
+        me \in {"GET", "OPTIONS", "POST", "DELETE"}, pc \in {"", JSON, TEXT} :
+        in' = [in EXCEPT !.payload = p, !.media = m, !.auth = a, !.k = k, !.method = me, !.presetct = pc]
   /\ track' = "payload"
 AuthOnForms ==      \* auth writers on form bodies (buffered urlencoded, streaming multipart)
   /\ track = "structure" /\ ~in.auth
